@@ -160,7 +160,7 @@ class Translator:
                         cur = tb.t['descrs'].get(str(a[1]))
                         if a[0] == 'upd' and op.get('iface') == 'entity' and cur is not None:
                             # write_entity also writes the state(s) of the entity
-                            if cur[2].endswith('ContextDescriptor'):
+                            if self.kind(a[1], cur[2]) == KIND['ctx']:       # (a SystemContextDescriptor is a component)
                                 for ch, x in tb.t['cstates'].items():
                                     if str(x[1]) == str(a[1]):
                                         acts.append(f'ACtxGet {self.it.h(ch)} {pay("cstates", ch, 7)} None')
